@@ -130,6 +130,8 @@ def check(tier="quick", seed=0, repo="/repo"):
         res["obligations"] += 1
         res["open"][n] = dict(kind="ensures", status="refuted", text=text, reason="emit site", candidates=[])
     hashcheck.emit_obligations(res, repo, _ok, _bad, "C04")
+    if res["open"]:
+        replay_open(res, repo)
     res["seconds"] = round(time.time() - t0, 3)
     return res
 
@@ -226,3 +228,28 @@ def check_emitters(res, repo):
                 if sum(1 for s_ in res["samples"] if s_.get("backend") == "attribute-flow") < 2:
                     res["samples"].append(dict(obligation=name, goal=f"{fd.name} reads {sorted(required)} of the model item" + (f" and {sorted(FIELD_REQUIRED)} of every field" if kind in ("struct", "message") else ""),
                                                backend="attribute-flow"))
+
+
+def replay_open(res, repo):
+    """compile one definition closure with the real compiler into the four languages and compare the outputs (replay/compile_replay.py, gcc for the C side)"""
+    import subprocess
+    script = os.path.join(os.path.dirname(os.path.dirname(os.path.abspath(__file__))), "replay", "compile_replay.py")
+    try:
+        p = subprocess.run(["/venv/bin/python", script, repo], capture_output=True, text=True, timeout=300)
+    except Exception as ex:
+        return
+    lines = [l for l in p.stdout.splitlines() if l.startswith("C04-REPLAY-VIOLATION:")]
+    for name, info in res["open"].items():
+        if "/emit/constant" in name or "string_constant" in name:
+            mine = [l for l in lines if "constant " in l]
+        elif "msg_type_id" in name or "host_id" in name or "module_id" in name:
+            mine = [l for l in lines if "message id" in l]
+        elif "/tables/" in name or "/emit/struct" in name or "/emit/message" in name or "type_alias" in name:
+            mine = [l for l in lines if "sizeof" in l or "offsetof" in l or "does not compile" in l]
+        else:
+            mine = [l for l in lines if "version hash" in l]
+        info["verifier_output"] = info["text"]
+        if mine:
+            info["reproduced"] = True
+            info["replay_how"] = f"/venv/bin/python replay/compile_replay.py {repo}"
+            info["text"] = info["text"] + "\nreplayed with the real compiler (and gcc): " + " | ".join(mine[:4])
